@@ -199,6 +199,11 @@ func (fr *FnRun) inlineBody(st *State, fn *ssa.Function, args []Val, free []Val,
 // from its pointer arguments is havocked and the result is unconstrained.
 func (fr *FnRun) havocCall(st *State, site ssa.Instruction, what string, sig *types.Signature, args []Val, k callK) {
 	ex := fr.ex
+	var oldSt *State
+	hasRecv := sig.Recv() != nil
+	if _, _, ok := stickySig(sig, hasRecv); ok {
+		oldSt = st.clone()
+	}
 	noEffect := false
 	for _, p := range ex.DB.NoEffect {
 		if strings.HasPrefix(what, p) {
@@ -214,7 +219,17 @@ func (fr *FnRun) havocCall(st *State, site ssa.Instruction, what string, sig *ty
 		ex.Assumptions["callee "+what+" assumed to have no effect on modelled state; result unconstrained"] = true
 	}
 	st.note("havoc " + what)
-	k(st, fr.freshResult(st, sig, what))
+	res := fr.freshResult(st, sig, what)
+	var results []Val
+	if tv, ok := res.(*TupleV); ok {
+		results = tv.E
+	} else {
+		results = []Val{res}
+	}
+	if oldSt != nil {
+		fr.assumeSticky(st, oldSt, sig, args, results, what, hasRecv)
+	}
+	k(st, res)
 }
 
 func (fr *FnRun) freshResult(st *State, sig *types.Signature, what string) Val {
@@ -258,21 +273,19 @@ func (fr *FnRun) havocReachable(st *State, v Val, seen map[*Obj]bool) {
 		if ok {
 			fr.havocReachable(st, cur, seen)
 		}
-		nv := ex.freshVal(x.Obj.T, ex.fresh(x.Obj.Name))
-		if _, isSl := x.Obj.T.(*types.Slice); isSl {
-			if av, ok := cur.(*ArrayV); ok {
-				nv = &ArrayV{Elem: av.Elem, N: av.N, Data: ex.freshArrData(av.Elem, ex.fresh(x.Obj.Name))}
-			}
-		}
-		st.heap[x.Obj] = nv
+		st.heap[x.Obj] = ex.materialise(x.Obj, ex.fresh(x.Obj.Name))
+		ex.assumeValid(st, &PtrV{Nil: tFalse, Obj: x.Obj, Elem: x.Obj.T}, types.NewPointer(x.Obj.T), 0)
 	case *SliceV:
 		if x.Arr == nil || seen[x.Arr] {
 			return
 		}
 		seen[x.Arr] = true
-		if av, ok := ex.heapGet(st, x.Arr).(*ArrayV); ok {
-			st.heap[x.Arr] = &ArrayV{Elem: av.Elem, N: av.N, Data: ex.freshArrData(av.Elem, ex.fresh(x.Arr.Name))}
+		if x.ViewW > 0 {
+			fr.havocView(st, x)
+			return
 		}
+		av := fr.arrOf(st, x)
+		fr.setArr(st, x, &ArrayV{Elem: av.Elem, N: av.N, Data: ex.freshArrData(av.Elem, ex.fresh(x.Arr.Name))})
 	case *StructV:
 		for _, f := range x.F {
 			fr.havocReachable(st, f, seen)
@@ -316,7 +329,12 @@ func (ex *Exec) ghostStruct(t types.Type, name string) *StructV {
 		if err != nil {
 			panic(err)
 		}
-		sv.Ghost[g.Name] = Var(name+"."+g.Name, srt)
+		gv := Var(name+"."+g.Name, srt)
+		if g.Sort == "Bytes" {
+			kk := Var("k!r", SInt)
+			ex.varFacts[gv.Name] = Forall([]*Term{kk}, And(Le(Int(0), Select(gv, kk)), Lt(Select(gv, kk), Int(256))), Select(gv, kk))
+		}
+		sv.Ghost[g.Name] = gv
 	}
 	return sv
 }
@@ -327,7 +345,15 @@ func (ex *Exec) ghostStruct(t types.Type, name string) *StructV {
 func (fr *FnRun) bindContractEnv(ctr *Contract, fn *ssa.Function, sig *types.Signature, args []Val) map[string]Val {
 	env := map[string]Val{}
 	i := 0
-	if sig.Recv() != nil || ctr.Iface {
+	if ctr.Iface {
+		for j, n := range ctr.Params {
+			if j < len(args) {
+				env[n] = args[j]
+			}
+		}
+		return env
+	}
+	if sig.Recv() != nil {
 		name := ctr.RecvName
 		if name == "" {
 			name = "recv"
@@ -412,6 +438,7 @@ func (fr *FnRun) applyContract(st *State, site ssa.Instruction, ctr *Contract, f
 			st.assume(Implies(And(pre...), fr.evalBool(en.E, penv)))
 		}
 	}
+	fr.assumeSticky(st, old, sig, args, results, callee, sig.Recv() != nil || ctr.Iface)
 	st.note("contract " + callee)
 	var res Val
 	switch len(results) {
@@ -460,23 +487,22 @@ func (fr *FnRun) havocLoc(st *State, m *Expr, env *Env) {
 		}
 	case "sel":
 		base := ex.force(env.st, fr.eval(m.X, env))
-		if iv, ok := base.(*IfaceV); ok {
-			if iv.Pay != nil {
-				base = ex.force(env.st, iv.Pay)
-			} else if iv.Obj != nil {
-				gs := ex.heapGet(st, iv.Obj).(*StructV)
-				ng := &StructV{T: gs.T, Ghost: map[string]Val{}}
-				for kk, vv := range gs.Ghost {
-					ng.Ghost[kk] = vv
-				}
-				old, ok := ng.Ghost[m.Name].(*Term)
-				if !ok {
-					panic(abortf("modifies %s: no ghost field %s", m, m.Name))
-				}
-				ng.Ghost[m.Name] = Var(ex.fresh(iv.Obj.Name+"."+m.Name), old.Sort)
-				st.heap[iv.Obj] = ng
-				return
+		// ghost state reached through interface values / delegation
+		if hp, ho := fr.ghostHolder(st, base, m.Name); ho != nil {
+			gs := ex.heapGet(st, ho).(*StructV)
+			ng := &StructV{T: gs.T, Ghost: map[string]Val{}}
+			for kk, vv := range gs.Ghost {
+				ng.Ghost[kk] = vv
 			}
+			old, ok := ng.Ghost[m.Name].(*Term)
+			if !ok {
+				panic(abortf("modifies %s: no ghost field %s", m, m.Name))
+			}
+			ng.Ghost[m.Name] = Var(ex.fresh(ho.Name+"."+m.Name), old.Sort)
+			st.heap[ho] = ng
+			return
+		} else if hp != nil {
+			base = hp
 		}
 		p, ok := base.(*PtrV)
 		if !ok {
@@ -524,10 +550,11 @@ func (fr *FnRun) havocSliceContents(st *State, s *SliceV) {
 	if s.Arr == nil {
 		return
 	}
-	av, ok := ex.heapGet(st, s.Arr).(*ArrayV)
-	if !ok {
-		panic(abortf("havoc contents: not an array object"))
+	if s.ViewW > 0 {
+		fr.havocView(st, s)
+		return
 	}
+	av := fr.arrOf(st, s)
 	// only the window [off, off+len) changes
 	nd := ex.freshArrData(av.Elem, ex.fresh(s.Arr.Name))
 	if ot, ok := av.Data.(*Term); ok {
@@ -535,7 +562,7 @@ func (fr *FnRun) havocSliceContents(st *State, s *SliceV) {
 		k := Var("k!h", SInt)
 		st.assume(Forall([]*Term{k}, Implies(Or(Lt(k, s.Off), Le(Add(s.Off, s.Len), k)), Eq(Select(nt, k), Select(ot, k))), Select(nt, k)))
 	}
-	st.heap[s.Arr] = &ArrayV{Elem: av.Elem, N: av.N, Data: nd}
+	fr.setArr(st, s, &ArrayV{Elem: av.Elem, N: av.N, Data: nd})
 }
 
 // ---------------------------------------------------------------------------
@@ -563,6 +590,10 @@ func (fr *FnRun) loopEnter(st *State, li *loopInfo, head, prev *ssa.BasicBlock) 
 		if c := ex.DB.Contracts[FuncKey(head.Parent())]; c != nil && c.Loops != nil {
 			spec = c.Loops[li.ordinal]
 		}
+	}
+	if spec == nil && head.Parent() == fr.fn {
+		spec = fr.defaultLoopSpec(li)
+		li.spec = spec
 	}
 	if spec == nil {
 		panic(abortf("loop %d of %s has no invariant", li.ordinal, ShortKey(FuncKey(head.Parent()))))
@@ -648,7 +679,17 @@ func (fr *FnRun) loopEnv(st *State, spec *LoopSpec, phis []*ssa.Phi, vals map[*s
 			vars[spec.Names[i]] = vals[ph]
 		}
 	}
-	return &Env{st: st, old: fr.entry, vars: vars, fr: fr}
+	if ri, _, ok := stickySig(fr.fn.Signature, true); ok {
+		vars["sticky_r"] = fr.entry.vals[fr.fn.Params[ri]]
+	}
+	return &Env{st: st, old: fr.entry, vars: vars, fr: fr, pkg: fr.envPkgOf()}
+}
+
+func (fr *FnRun) envPkgOf() string {
+	if fr.fn != nil && fr.fn.Pkg != nil {
+		return fr.fn.Pkg.Pkg.Path()
+	}
+	return ""
 }
 
 func (fr *FnRun) loopBack(st *State, li *loopInfo, head, prev *ssa.BasicBlock) {
@@ -699,6 +740,10 @@ func (fr *FnRun) loopBack(st *State, li *loopInfo, head, prev *ssa.BasicBlock) {
 // resolved; anything else aborts).
 func (fr *FnRun) havocLoopWrites(st *State, li *loopInfo, spec *LoopSpec) {
 	ex := fr.ex
+	if spec.Unroll == -1 {
+		fr.havocAll(st)
+		return
+	}
 	if len(spec.Modifies) > 0 {
 		env := &Env{st: st, old: fr.entry, vars: fr.env0, fr: fr}
 		pre := st.clone()
@@ -804,7 +849,7 @@ func (fr *FnRun) addrRoot(st *State, li *loopInfo, addr ssa.Value) (*PtrV, bool)
 
 func (fr *FnRun) havocAt(st *State, p *PtrV) {
 	ex := fr.ex
-	if _, ok := p.Obj.T.(*types.Slice); ok && len(p.Path) == 0 {
+	if p.Obj.IsArr && len(p.Path) == 0 {
 		if av, ok := ex.heapGet(st, p.Obj).(*ArrayV); ok {
 			st.heap[p.Obj] = &ArrayV{Elem: av.Elem, N: av.N, Data: ex.freshArrData(av.Elem, ex.fresh(p.Obj.Name))}
 			return
@@ -873,4 +918,48 @@ func (fr *FnRun) loopCallEffects(st *State, li *loopInfo, c *ssa.CallCommon) {
 		}
 		fr.havocReachable(st, v, map[*Obj]bool{})
 	}
+}
+
+// ghostHolder finds where ghost field `name` of `base` lives: either a pointer
+// to a struct carrying it, or the opaque object of an interface value.
+func (fr *FnRun) ghostHolder(st *State, base Val, name string) (*PtrV, *Obj) {
+	ex := fr.ex
+	base = ex.force(st, base)
+	switch x := base.(type) {
+	case *IfaceV:
+		if x.Pay != nil {
+			return fr.ghostHolder(st, x.Pay, name)
+		}
+		if x.Obj != nil {
+			return nil, x.Obj
+		}
+	case *PtrV:
+		if x.Obj == nil {
+			return nil, nil
+		}
+		sv, ok := ex.load(st, x).(*StructV)
+		if !ok {
+			return nil, nil
+		}
+		if _, ok := sv.Ghost[name]; ok {
+			return x, nil
+		}
+		if s, ok := under(sv.T).(*types.Struct); ok {
+			for i := 0; i < s.NumFields(); i++ {
+				if s.Field(i).Name() == name {
+					return x, nil
+				}
+			}
+			if d, ok := ex.DB.Delegates[TypeKey(sv.T)]; ok {
+				for i := 0; i < s.NumFields(); i++ {
+					if s.Field(i).Name() == d {
+						fv := ex.load(st, &PtrV{Nil: tFalse, Obj: x.Obj, Path: appendPath(x.Path, PathElem{Field: i}), Elem: s.Field(i).Type()})
+						return fr.ghostHolder(st, fv, name)
+					}
+				}
+			}
+		}
+		return x, nil
+	}
+	return nil, nil
 }
